@@ -30,7 +30,7 @@ def _points(rng, n):
     pts = []
     for _ in range(n):
         kind = rng.choice(['better', 'better', 'worse', 'worse', 'worse2', 'repeat', 'random',
-                           'mirror', 'nonfinite', 'last'])
+                           'mirror', 'nonfinite', 'last', 'kink'])
         pts.append([kind, round(rng.random(), 3), rng.randrange(1 << 16),
                     rng.choice(['f_g', 'f_g', 'f_g_h', 'f'])])
     return pts
@@ -50,7 +50,7 @@ def make_ops(rng: random.Random, cfg: dict, profile: str, tier: str) -> list[dic
             p = _points(rng, 1)[0]
             ops.append({'op': 'EVAL', 'a': [p[0], p[1], p[2], rng.random() < 0.3]})
         elif r < 0.80:
-            scripted = rng.random() < 0.6 or cfg['K'] > 100 or bool(cfg.get('cliff'))
+            scripted = rng.random() < 0.6 or cfg['K'] > 100 or bool(cfg.get('cliff')) or bool(cfg.get('kink'))
             algo = 'scripted' if scripted else rng.choice(REAL_ALGOS)
             boot = rng.choice([0, 0, 0, 2, 3]) if 2 <= cfg['K'] <= 100 else 0
             ops.append({'op': 'ESTIMATE', 'a': [algo, boot, rng.choice(['best', 'last', 'first'])],
@@ -472,6 +472,12 @@ class Session:
             x = list(self.last_x)
         elif kind == 'mirror':
             x = [2 * s - b for b, s in zip(best, star)]
+        elif kind in ('nonfinite', 'kink') and self.cfg.get('kink'):
+            # finite value, non-finite gradient: exactly at the kink
+            x = [b + (0.3 * u) * (s - b) for b, s in zip(best, star)] if kind == 'kink' else list(best)
+            idx = names.index(self.cfg['names'][self.cfg['kink']['param']])
+            x[idx] = float(self.cfg['kink']['at'])
+            self.ctx.probe('evaluation exactly at a kink (finite value, non-finite gradient)')
         elif kind == 'nonfinite' and self.cfg.get('cliff'):
             x = list(best)
             idx = names.index(self.cfg['names'][self.cfg['cliff']['param']])
@@ -509,6 +515,10 @@ class Session:
             xr = min(finite, key=lambda v: v[1])[0]
         if not math.isfinite(self._fref(xr)):
             xr = x0
+        if self.cfg.get('kink'):
+            idx = self.names.index(self.cfg['names'][self.cfg['kink']['param']])
+            if float(xr[idx]) == float(self.cfg['kink']['at']):
+                xr = x0     # the statistics computed by estimate() need finite derivatives at the returned point
         return OptimizationResults(solution=np.array(xr), messages={'Algorithm': 'scripted'},
                                    convergence=True)
 
@@ -525,7 +535,7 @@ class Session:
         content = self.settled.get(fname)  # validated by _settle(strict) above
         ctx.probe('restart from file' if content is not None else 'restart without file')
         self.new_object()
-        real = (not self.cfg.get('cliff')) and self.cfg['K'] <= 10 and \
+        real = (not self.cfg.get('cliff')) and (not self.cfg.get('kink')) and self.cfg['K'] <= 10 and \
             random.Random(ctx.spec['run_seed'] + ctx.lifetime).random() < 0.35
         algo = 'simple_bounds' if real else 'scripted'
         r, info = self._estimate(algo, 0, {'pts': [], 'ret': 'first'}, oracle='I15.4')
@@ -618,7 +628,7 @@ class Session:
         if kind == 'EVAL_D':
             x = self._resolve(a[0], a[1], a[2])
             arg = x if not a[6] else [float(v) for v in x]
-            if a[6] and self.cfg.get('cliff'):
+            if a[6] and (self.cfg.get('cliff') or self.cfg.get('kink')):
                 arg = x  # list input + non-finite gradient trips an unrelated AttributeError
             try:
                 out = self.obj.calculate_likelihood_and_derivatives(arg, scaled=a[3], hessian=a[4], bhhh=a[5])
